@@ -4,7 +4,11 @@ export default grammar({
   word: $ => $.identifier,
   rules: {
     source: $ => repeat($._statement),
-    _statement: $ => choice($.get, $.set, $.mk, $.call, $.del, $.tag),
+    _statement: $ => choice($.get, $.set, $.mk, $.call, $.del, $.tag, $.nest),
+    // a field on a hidden rule whose visible children sit two hidden levels down (the inner level has no field of its own)
+    nest: $ => seq('nest', field('head', $._outer), optional(field('tail', $._inner)), ';'),
+    _outer: $ => seq($._inner, $.number),
+    _inner: $ => seq($.identifier, $.identifier),
     // a token that is an extra everywhere else is an ordinary member here: re-parses can reuse it in the other role
     tag: $ => seq('@', $.note),
     // the same visible symbol (path) un-aliased in one production and aliased in another of the same parent
